@@ -1176,15 +1176,18 @@ class LangServer:
         # Intrinsics do not have implementations we can access
         if isinstance(var_obj, Intrinsic):
             return None
+        # Top-level objects have no enclosing type or interface
+        if var_obj.parent is None:
+            return None
         # Construct implementation reference
+        impl_obj = getattr(var_obj, "link_obj", None)
         if var_obj.parent.get_type() == CLASS_TYPE_ID:
-            impl_obj = var_obj.link_obj
             if (impl_obj is not None) and (impl_obj.file_ast.file is not None):
                 return self._create_ref_link(impl_obj)
         elif var_obj.parent.get_type() == INTERFACE_TYPE_ID:
             # Find the first implementation of the interface
-            if var_obj.link_obj is not None:
-                return self._create_ref_link(var_obj.link_obj)
+            if (impl_obj is not None) and (impl_obj.file_ast.file is not None):
+                return self._create_ref_link(impl_obj)
         return None
 
     def serve_rename(self, request: dict):
